@@ -22,6 +22,24 @@ Init ==
              ELSE {Append(s, 0) : s \in SeqsUpTo(Alpha(enc) \ {0}, MaxLen - 1)}
   /\ pc = "validate" /\ i = 1 /\ n = 0 /\ err = 0 /\ reads = {}
 
+\* Boundary-structured longer buffers: [ASCII] lead/any unit, then three units drawn from the classes that
+\* decide continuation / range tests, then optionally one more unit.  (UTF-8 sequences of 4 units and their
+\* near misses; surrogate pairs surrounded by context for UTF-16.)
+Tail8  == {0, 65, 128, 143, 144, 159, 160, 191, 192}
+Tail16 == {0, 65, 55296, 56319, 56320, 57343}
+Tail32 == {0, 65, 55296, 1114111, 1114112, -1}
+TailOf(e) == CASE e = 8 -> Tail8 [] e = 16 -> Tail16 [] e = 32 -> Tail32
+Structured(e) ==
+  {pre \o <<a>> \o <<b, c, d>> \o suf :
+      pre \in {<< >>, <<65>>}, a \in Alpha(e), b \in TailOf(e), c \in TailOf(e), d \in TailOf(e), suf \in {<< >>, <<65>>, <<128>>}}
+
+InitStructured ==
+  /\ enc \in Encs
+  /\ endGiven \in BOOLEAN
+  /\ buf \in IF endGiven THEN Structured(enc)
+             ELSE {Append(SelectSeq(s, LAMBDA x : x # 0), 0) : s \in Structured(enc)}
+  /\ pc = "validate" /\ i = 1 /\ n = 0 /\ err = 0 /\ reads = {}
+
 DoValidate ==
   /\ pc = "validate"
   /\ IF endGiven
@@ -48,6 +66,7 @@ Done == pc = "done" /\ UNCHANGED vars
 
 Next == DoValidate \/ DoStep \/ Done
 Spec == Init /\ [][Next]_vars /\ WF_vars(DoValidate \/ DoStep)
+SpecStructured == InitStructured /\ [][Next]_vars /\ WF_vars(DoValidate \/ DoStep)
 
 (***************************************************************************)
 (* PROPERTIES (C11, first sentence)                                        *)
